@@ -694,6 +694,15 @@ def run(index: RepoIndex, rep) -> None:
              floor=3)
     rep.rule('C01.R6', 'shipped configurations declare every object type and colour their '
              'reset and transition functions can place', floor=21)
+    rep.rule('C01.R8', 'the composition reaches the components as configured: each built-in '
+             'observation function is from_visibility with its own visibility function, and '
+             'GridWorld hands states and observations through unchanged (C05.R5, C13.R7)',
+             floor=6)
+    from .c05 import wrappers
+    from .wiring import observation_passthrough, reset_passthrough
+    wrappers(index, rep, 'C01.R8')
+    reset_passthrough(index, rep, 'C01.R8')
+    observation_passthrough(index, rep, 'C01.R8')
     n = run_bounds(index, rep, 'C01.R1')
     rep.extra_coverage['bounds_sinks'] = n
     action_check(index, rep, 'C01.R2')
